@@ -6,15 +6,15 @@ Open Scope Z_scope.
 
 (* rest  : bytes from the current offset to the end of the input
    off   : s.off (offset inside s.buf; reset to 0 by Clear)
-   endr  : s.end (absolute inside s.buf; -1 = no pending Request)
+   endr  : s.end (absolute inside s.buf; None = -1 = no pending Request)
    apos  : absolute offset from the start of the input (stands for s.pos:
            Position{Line,Byte} is an injective function of it)
    stk   : saved (rest, off, apos) frames, most recent first *)
 Record st := mkst {
-  rest : list byte; off : Z; endr : Z; apos : Z;
+  rest : list byte; off : Z; endr : option Z; apos : Z;
   stk : list (list byte * Z * Z) }.
 
-Definition st_of (l : list byte) : st := mkst l 0 (-1) 0 [].
+Definition st_of (l : list byte) : st := mkst l 0 None 0 [].
 
 Definition M (A : Type) := st -> out A * st.
 
@@ -48,7 +48,7 @@ Definition get : M st := fun s => (Ok s, s).
 Definition put (s : st) : M unit := fun _ => (Ok tt, s).
 Definition lift {A} (x : out A) : M A := fun s => (x, s).
 
-Fixpoint has_n {A} (l : list A) (n : nat) : bool :=
+Fixpoint has_n {A} (l : list A) (n : nat) {struct n} : bool :=
   match n, l with
   | O, _ => true
   | S _, [] => false
@@ -64,20 +64,27 @@ Definition autoclear (s : st) : st :=
 (* State.Request *)
 Definition request (n : Z) : M unit := fun s =>
   if has_n (rest s) (Z.to_nat n)
-  then (Ok tt, mkst (rest s) (off s) (off s + n) (apos s) (stk s))
-  else (Err EEof, mkst (rest s) (off s) (off s + zlen (rest s)) (apos s) (stk s)).
+  then (Ok tt, mkst (rest s) (off s) (Some (off s + n)) (apos s) (stk s))
+  else (Err EEof, mkst (rest s) (off s) (Some (off s + zlen (rest s))) (apos s) (stk s)).
 
 (* State.Advance *)
 Definition advance : M unit := fun s =>
-  if endr s <? 0 then (Panic, s) else
-  let k := endr s - off s in
-  if (k <? 0) || negb (has_n (rest s) (Z.to_nat k)) then (Panic, s) else
-  (Ok tt, autoclear (mkst (skipn (Z.to_nat k) (rest s)) (endr s) (-1) (apos s + k) (stk s))).
+  match endr s with
+  | None => (Panic, s) (* "no previous call to Request" *)
+  | Some e =>
+    let k := e - off s in
+    if (k <? 0) || negb (has_n (rest s) (Z.to_nat k)) then (Panic, s) else
+    (Ok tt, autoclear (mkst (skipn (Z.to_nat k) (rest s)) e None (apos s + k) (stk s)))
+  end.
 
 (* State.Buffer *)
 Definition buffer : M (list byte) := fun s =>
-  let k := endr s - off s in
-  if (k <? 0) then (Panic, s) else (Ok (firstn (Z.to_nat k) (rest s)), s).
+  match endr s with
+  | None => (Panic, s) (* s.buf[s.off:-1] *)
+  | Some e =>
+    let k := e - off s in
+    if (k <? 0) then (Panic, s) else (Ok (firstn (Z.to_nat k) (rest s)), s)
+  end.
 
 Definition push : M unit := fun s =>
   (Ok tt, mkst (rest s) (off s) (endr s) (apos s) ((rest s, off s, apos s) :: stk s)).
@@ -135,7 +142,7 @@ Definition advance_while (f : byte -> bool) : M unit := fun s =>
   | S _ =>
     let o := match stk s with [] => 0 | _ => off s + Z.of_nat k end in
     let e := match r with [] => o | _ => o + 1 end in
-    (Ok tt, mkst r o e (apos s + Z.of_nat k) (stk s))
+    (Ok tt, mkst r o (Some e) (apos s + Z.of_nat k) (stk s))
   end.
 
 (* ascii filters *)
@@ -394,7 +401,7 @@ Definition pBetween (l r : byte) : M (list byte) :=
     | None => pop ;;; fail EOther
     | Some n =>
       (* consume n bytes (the loop's Advances), leave a pending Next *)
-      put (mkst (skipn (Z.to_nat n) (rest s)) (off s + n) (off s + n + 1)
+      put (mkst (skipn (Z.to_nat n) (rest s)) (off s + n) (Some (off s + n + 1))
                 (apos s + n) (stk s)) ;;;
       p <-- trail ;;;
       _ <-- try (skip 1) ;;;
@@ -402,6 +409,35 @@ Definition pBetween (l r : byte) : M (list byte) :=
     end
   end.
 Definition pQuoted (c : byte) : M (list byte) := pBetween c c.
+
+(* pars.Until(q) for a parser argument:
+     state.Push(); state.Push()
+     for p(state, result) != nil { state.Drop(); if Skip(state,1) fails {Pop; return}; state.Push() }
+     state.Pop(); Trail *)
+Fixpoint until_loop {A} (fuel : nat) (p : M A) : M unit :=
+  match fuel with
+  | O => nofuel
+  | S f =>
+    r <-- try p ;;;
+    match r with
+    | (Some _, _) => ret tt
+    | (None, _) =>
+      drop ;;;
+      r2 <-- try (skip 1) ;;;
+      match r2 with
+      | (None, k) => pop ;;; fail k
+      | (Some _, _) => push ;;; until_loop f p
+      end
+    end
+  end.
+
+Definition pUntilP {A} (p : M A) : M (list byte) :=
+  push ;;; push ;;;
+  s <-- get ;;;
+  until_loop (S (S (length (rest s)))) p ;;;
+  pop ;;;
+  b <-- pushed ;;;
+  if b then trail else fail EOther.
 
 (* Run a parser on a whole string: Parser.Parse(pars.FromString(s)) *)
 Definition run {A} (p : M A) (input : list byte) : out A := fst (p (st_of input)).
